@@ -147,9 +147,19 @@ RICH = [
     (["Option<G>", "Option < G >"], "Some(<G as ::core::convert::From<u8>>::from({i}u8 + 40))"),
     (["[G; N]", "[G;N]", "[ G ; N ]"], "[<G as ::core::convert::From<u8>>::from({i}u8 + 80); N]"),
     (["&'a [G]", "& 'a [G]", "&'a [ G ]"], "::core::slice::from_ref({leak}(<G as ::core::convert::From<u8>>::from({i}u8 + 120)))"),
+    (["&'a &'static str", "& 'a & 'static str"], "{leak}([\"p\", \"q\", \"r\", \"s\", \"t\", \"u\", \"v\", \"w\", \"x\", \"y\"][{i}])"),
     (["u64", "u64"], "{i}u64 + 1000"),
     (["i128", "i128"], "-({i}i128)"),
 ]
+# spellings that are legal in an attribute only (an elided lifetime is read as 'static there; a field type cannot elide)
+ATTR_ONLY = {"&'a &'static str": ["&'a &str", "& 'a &str"], "&'static str": ["&str", "& str"]}
+
+
+def attr_spellings(p):
+    sp = RICH[p][0]
+    return sp + ATTR_ONLY.get(sp[0], [])
+
+
 DECOY = [("bool", "true"), ("char", "'x'"), ("f32", "1.5f32"), ("()", "()"), ("u32", "{i}u32"), ("Vec<u8>", "vec![{i}u8]")]
 
 
@@ -197,7 +207,7 @@ def rich_case(seed, k):
             f["i"] = i
             f["name"] = "f%d" % i if named else None
         variants.append({"name": "V%d" % vi, "named": named, "fields": fields})
-    tgt_sp = [rng.choice(RICH[p][0]) for p in picks]
+    tgt_sp = [rng.choice(attr_spellings(p)) for p in picks]
 
     def into_attr(ti, sp):
         return "Into(%s)" % sp
@@ -211,7 +221,7 @@ def rich_case(seed, k):
     def fdecl(f):
         a = ""
         if f["marker"]:
-            a = "#[educe(Into(%s))] " % rng.choice(RICH[picks[f["tgt"]]][0])
+            a = "#[educe(Into(%s))] " % rng.choice(attr_spellings(picks[f["tgt"]]))
         return "%s%s%s" % (a, ("pub %s: " % f["name"]) if f["name"] else "pub ", f["ty"])
     if not enum:
         v = variants[0]
